@@ -39,6 +39,17 @@ VOCAB = [
     "[has_child(a)]", "[!has_child(a)]", "[name()]", "[parent()]", "[parent(0)]", "[parent(2)]", "[max()]", "[min()]",
     "[max(a)]", "[!max(a)]", "[min(a)]", "[unique()]", "[!unique()]", "[distinct()]", "[unique(a)]", "[distinct(a)]",
 ]
+# search terms whose leading / trailing blank is significant (protected by quotes or by an escape), all operators,
+# on '.' and on an attribute, plain and inverted; interior blanks as the control
+BLANK_TERMS = ["' '", "' a'", "'a '", "\\ a", "a\\ ", '" a"', "' 1'", "'a b'", "\\ ", '"a "', "'1 '", "a\\ b", "'  '", "' a '"]
+BLANK_VOCAB = (["[%s%s%s]" % (at, op, t) for at in (".", "a") for op in ("=", "^", "$", "%", ">", "<", ">=", "<=") for t in BLANK_TERMS[:8]]
+               + ["[%s%s%s]" % (at, op, t) for at in (".", "a") for op in ("!=", "!^", "!$", "!%") for t in BLANK_TERMS[:5]]
+               + ["[.=%s]" % t for t in BLANK_TERMS[8:]] + ["[!.=' a']", "[!.$' ']", "[!a^' ']"]
+               + ["[%s=~%s]" % (at, t) for at in (".", "a") for t in ("/ a/", "/a /", "/^ /", "/ $/", "/ /", "/^ a $/")])
+# values and keys with leading / trailing blanks for the layer these items run on
+BLANK_VALUES = [{"k": "str", "v": v} for v in (" a", "a ", " ", "a b", " 1")] + [{"k": "int", "v": "1"}]
+BLANK_KEYS = ["a", " a"]
+
 CORE = ["a", "b", "1", "-1", "[0]", "[-1]", "[-2]", "[0:2]", "[1:1]", "[a:b]", "[&x]",
         "[.=a]", "[.=1]", "[.!=1]", "[.^a]", "[.>0]", "[a=1]", "[a!=1]", "[a.b=1]", "[.=~/^a/]",
         "a*", "*", "**", "[has_child(a)]", "[parent()]", "[max(a)]", "[name()]"]
@@ -134,7 +145,8 @@ def anchored_variants(rng, docs, n):
 
 RKEYS = ["a", "b", "ab", "c", 1, -1, 0, 2, "1", "x y", "a.b"]
 RVALS = VALUES + [{"k": "int", "v": "-1"}, {"k": "int", "v": "10"}, {"k": "str", "v": "b"}, {"k": "str", "v": "1"},
-                  {"k": "str", "v": "true"}, {"k": "float", "m": "-25", "e": -1}, {"k": "str", "v": "abc"}]
+                  {"k": "str", "v": "true"}, {"k": "float", "m": "-25", "e": -1}, {"k": "str", "v": "abc"},
+                  {"k": "str", "v": " a"}, {"k": "str", "v": "a "}, {"k": "str", "v": " "}, {"k": "str", "v": "a b"}]
 
 
 PUNCT_KEYS = ["a.b", "a/b", "a\\b", "(a)", "a[0]", "[b", "a]", "^a", "a$", "%a", "x y", "it's", 'q"q', "a", "b", 1]
@@ -222,6 +234,8 @@ def random_seg(rng):
         attr = rng.choice([".", ".", ".", "a", "b", "ab", "c", "1", "a.b", "b.a", "a[0]", "c.a"])
         op = rng.choice(["=", "!=", "^", "$", "%", ">", "<", ">=", "<=", "=~"])
         term = rng.choice(["a", "b", "ab", "1", "0", "2", "1.5", "true", "", "None", "10", "-1", "abc"])
+        if rng.random() < 0.12:
+            term = rng.choice(BLANK_TERMS)
         if op == "=~":
             term = rng.choice(["/^a/", "/b$/", "/./", "/1/", "/(/", "/[a-b]+/", "/^$/"])
         inv = "!" if rng.random() < 0.15 else ""
@@ -258,7 +272,11 @@ def scalar_term(j):
         return j["v"]
     if k == "float":
         return repr(codec.json_to_plain(j))
-    return j["v"] if j["v"] and all(c.isalnum() for c in j["v"]) else "a"
+    v = j["v"]
+    if v and " " in v and all(c.isalnum() or c == " " for c in v):
+        # blanks (also at the edges) are part of the value's text: quoted or escaped, they are part of the term
+        return ("'%s'" % v, '"%s"' % v, v.replace(" ", "\\ "))[len(v) % 3]
+    return v if v and all(c.isalnum() for c in v) else "a"
 
 
 def guided_path(rng, doc, maxlen=5):
@@ -380,6 +398,29 @@ def parse_segments(text):
         return codec.segs_to_json(list(YAMLPath(text).escaped))
     except Exception:
         return None
+
+
+def written_segments(parsed):
+    """{text: segments} for the path texts whose SEARCH segments, as the real parser delivers them, differ from what
+    the text says (read by the parser model, `parse` op of the driver, which C08/C14 hold against the real parser):
+    same number and types of segments, every non-search segment identical, at least one search segment with another
+    attribute, operator, inversion or term (e.g. a quoted or escaped blank at the edge of a term that got lost on the
+    way into the SearchTerms object).  The evaluator model mirrors what happens AFTER parsing, so it is given the
+    search as written; all other differences between the parsers are C08/C14's business and change nothing here."""
+    todo = [(t, sg) for t, sg in parsed if sg is not None and all(ord(ch) < 128 for ch in t)
+            and any(k == "SEARCH" for k, _a in sg)]
+    todo = list({t: (t, sg) for t, sg in todo}.values())
+    if not todo:
+        return {}
+    out = {}
+    answers = core.Driver().ask([{"op": "parse", "t": t, "sep": "auto"} for t, _sg in todo])
+    for (t, sg), mo in zip(todo, answers):
+        ms = mo.get("esc", {}).get("ok")
+        if ms is None or ms == sg or len(ms) != len(sg):
+            continue
+        if all((a == b) or (a[0] == "SEARCH" and b[0] == "SEARCH") for a, b in zip(sg, ms)):
+            out[t] = ms
+    return out
 
 
 def subnodes(j, obj, out):
@@ -729,7 +770,7 @@ def compare_chunk(args):
     RENDER_BOTH = bool(opts.get("c02"))
     stats = {"n": 0, "queries": 0, "nonempty": 0, "ypath": 0, "crash": 0, "oom": 0, "unparsable": 0, "slash_skipped": 0,
              "opt_compared": 0, "virtual": 0, "c09_mutations": 0, "deep_results": 0, "requeries": 0,
-             "kinds": {}, "docsize": {}}
+             "search_as_written": 0, "kinds": {}, "docsize": {}}
     viol, disag, samples, nontrivial = [], [], [], set()
     per_sig = {}
 
@@ -741,13 +782,21 @@ def compare_chunk(args):
 
     prepared = []
     reqs = []
+    parsed = []
     for doc, items in cases:
         text = path_text(items, False)
-        segs = with_timer(lambda: parse_segments(text))
+        parsed.append((text, with_timer(lambda: parse_segments(text))))
+    written = written_segments(parsed)
+    for (doc, items), (text, segs) in zip(cases, parsed):
         stats["n"] += 1
         if segs is None:
             stats["unparsable"] += 1
             continue
+        if text in written:
+            # the real parser hands its evaluator a search whose attribute / term / operator is not the one written in
+            # the path text: the specification is evaluated on the search as written (the query is judged as a whole)
+            segs = written[text]
+            stats["search_as_written"] += 1
         # the real run (required) gives us the objects for the oracle tables
         req, d, table = run_query(doc, text, "req")
         stats["queries"] += 1
